@@ -78,7 +78,7 @@ class Ctx:
   def ob(self, rule, fn, desc, ok, msg='', where=None, nontrivial=True, detail=None):
     """record one rule instance; a failed one is a violation keyed (rule, fn, desc)"""
     rec = {'rule': rule, 'function': fn, 'instance': desc, 'ok': bool(ok), 'where': where, 'nontrivial': nontrivial}
-    if msg:
+    if msg and not ok:
       rec['note'] = msg
     self.obligations.append(rec)
     if not ok:
